@@ -56,4 +56,47 @@ mod harness {
         let expect = if (b.bb_color(Color::White) >> sq) & 1 == 1 { Some(Color::White) } else if (b.bb_color(Color::Black) >> sq) & 1 == 1 { Some(Color::Black) } else { None };
         assert!(r == expect);
     }
+
+    // ------------------------------------------------------------------------------------------------------------
+    // The ASSUMED specifications of std scalar functions in contracts/std.vspec, checked against std itself for EVERY
+    // argument (loop-free, or one loop bounded by the operand width with unwinding assertions on): complete proofs.
+    // The right-hand sides below are transliterations of the `ensures` clauses of the assume_specification items.
+    // ------------------------------------------------------------------------------------------------------------
+    #[kani::proof]
+    fn std_checked_shifts() {
+        let x: u64 = kani::any(); let n: u32 = kani::any();
+        assert!(x.checked_shl(n) == if n < 64 { Some(x << n) } else { None });
+        assert!(x.checked_shr(n) == if n < 64 { Some(x >> n) } else { None });
+    }
+    /// popcount(x) = if x == 0 { 0 } else { 1 + popcount(x & (x - 1)) }   (the recursive spec function of std.vspec)
+    #[kani::proof]
+    #[kani::unwind(66)]
+    fn std_count_ones() {
+        let x: u64 = kani::any();
+        let mut y = x; let mut n: u32 = 0;
+        while y != 0 { y &= y - 1; n += 1; }
+        assert!(x.count_ones() == n && n <= 64);
+    }
+    #[kani::proof]
+    fn std_saturating_add_i32() {
+        let x: i32 = kani::any(); let y: i32 = kani::any();
+        let w = x as i64 + y as i64;
+        let want = if w > i32::MAX as i64 { i32::MAX } else if w < i32::MIN as i64 { i32::MIN } else { w as i32 };
+        assert!(x.saturating_add(y) == want);
+    }
+    #[kani::proof]
+    fn std_max_min_i32() {
+        let x: i32 = kani::any(); let y: i32 = kani::any();
+        let mx = std::cmp::max(x, y); let mn = std::cmp::min(x, y);
+        assert!(mx == if x > y { x } else { y });
+        assert!(mn == if x > y { y } else { x });
+    }
+    #[kani::proof]
+    fn std_char_fns() {
+        let c: char = kani::any();
+        assert!(c.to_digit(10) == if '0' <= c && c <= '9' { Some(c as u32 - '0' as u32) } else { None });
+        assert!(c.to_ascii_lowercase() == if 'A' <= c && c <= 'Z' { (c as u8 + 32) as char } else { c });
+        if 'a' <= c && c <= 'z' { assert!(c.is_lowercase()); }
+        if 'A' <= c && c <= 'Z' { assert!(!c.is_lowercase()); }
+    }
 }
